@@ -97,7 +97,7 @@ def run(ctx):
         a = rng.randrange(20, 120)
         return [(a, lambda p: p.stall('Y')), (a + rng.randrange(200, 500), lambda p: p.resume('Y'))]
     eng.random_runs(topos.join_timeout(maxseq=12, ticks=3), 6 if ctx.quick else 100, 2500, p_timeout=0.04, faults=silence,
-                    tag='silent-source', pipekw=dict(local_clocks=False))
+                    tag='silent-source', validate=2 if ctx.quick else 15)
     partial_publish_kills(eng, rep, topos.chain2(maxseq=6, conn_ticks=5), 'S', 'K', 6 if ctx.quick else 60)
     return rep.finish()
 
